@@ -5,6 +5,7 @@ go 1.23.7
 require (
 	github.com/anishathalye/porcupine v1.3.0
 	github.com/beevik/etree v1.3.0
+	github.com/google/uuid v1.6.0
 	github.com/russellhaering/goxmldsig v1.4.0
 	github.com/zitadel/logging v0.5.0
 	github.com/zitadel/saml v0.0.0
@@ -13,7 +14,6 @@ require (
 require (
 	github.com/amdonov/xmlsig v0.1.0 // indirect
 	github.com/felixge/httpsnoop v1.0.3 // indirect
-	github.com/google/uuid v1.6.0 // indirect
 	github.com/gorilla/handlers v1.5.2 // indirect
 	github.com/gorilla/mux v1.8.1 // indirect
 	github.com/jonboulle/clockwork v0.2.2 // indirect
